@@ -165,9 +165,17 @@ def make_scheduler(kind):
 class Interp:
     """executes a program tree against a real scheduler"""
 
-    def __init__(self, get_sched, log, tick):
+    def __init__(self, get_sched, log, tick, tz=None):
         self.get_sched, self.log, self.tick = get_sched, log, tick
         self.handles = {}
+        self.tz = tz or {}  # label -> UTC offset (hours) in which that absolute due time is WRITTEN (same instant)
+
+    def abs_time(self, lbl, t_us):
+        from datetime import timezone
+
+        dt = EPOCH + timedelta(microseconds=t_us)
+        off = self.tz.get(str(lbl))
+        return dt if off is None else dt.astimezone(timezone(timedelta(hours=off)))
 
     def action(self, lbl, body):
         def act(scheduler, state):
@@ -189,7 +197,7 @@ class Interp:
                     elif k == "rel":
                         self.handles[op[1]] = s.schedule_relative(timedelta(microseconds=op[2]), self.action(op[1], op[3]))
                     else:
-                        self.handles[op[1]] = s.schedule_absolute(EPOCH + timedelta(microseconds=op[2]), self.action(op[1], op[3]))
+                        self.handles[op[1]] = s.schedule_absolute(self.abs_time(op[1], op[2]), self.action(op[1], op[3]))
                 except InjectedError:
                     # an action raised: the exception leaves Trampoline.run and reaches the schedule* call that started the drain
                     # loop; only the top-level program catches it (inside an action it keeps propagating)
@@ -252,7 +260,7 @@ def run_single(case):
         def tick(d):
             clock[0] += d
 
-        it = Interp(lambda: sched, events.append, tick)
+        it = Interp(lambda: sched, events.append, tick, case.get("tz"))
         it.run(case["prog"], top=True)
         tramp = sched.get_trampoline()
         idle = tramp.__dict__.get("idle_")
@@ -271,10 +279,11 @@ def run_single(case):
 
 
 def _rel_delays(prog, out=None):
+    """label -> ("rel", d) | ("abs", t): the due time the CALLER asked for"""
     out = {} if out is None else out
     for o in prog or []:
-        if o[0] == "rel":
-            out[o[1]] = o[2]
+        if o[0] in ("rel", "abs"):
+            out[o[1]] = (o[0], o[2])
         if o[0] in ("sched", "rel", "abs"):
             _rel_delays(o[-1], out)
     return out
@@ -294,7 +303,12 @@ def oracle_events(events, prog=None):
     for e in events:
         k = e[0]
         if k == "sched":
-            due = e[3] + max(rel[e[1]], 0) if e[1] in rel else e[2]
+            # the due time the caller asked for: now + max(d, 0) for schedule_relative(d); the given INSTANT for
+            # schedule_absolute (in whatever time zone it was written); otherwise what the implementation computed (= now)
+            if e[1] in rel:
+                due = e[3] + max(rel[e[1]][1], 0) if rel[e[1]][0] == "rel" else rel[e[1]][1]
+            else:
+                due = e[2]
             sched[e[1]] = (due, e[3], len(order))
             order.append(e[1])
         elif k == "cancel":
@@ -332,7 +346,7 @@ def oracle_events(events, prog=None):
         for b in range(a + 1, len(started)):
             if started[a][1] == started[b][1] and started[a][2] > started[b][2]:
                 return f"equal due times but {started[a][0]} (scheduled later) ran before {started[b][0]}"
-    no_past = all(due >= clk for (due, clk, _) in sched.values())
+    no_past = all(due >= clk for (due, clk, _) in sched.values())  # (asked-for due times)
     if no_past:
         dues = [s[1] for s in started]
         if dues != sorted(dues):
@@ -382,7 +396,7 @@ def run_threads(cfg, preempt=None, opcode=False):
                     ctl.ev("tick", d)
                     ctl.advance(d)
 
-                Interp(get, lambda e: ctl.ev(*e), tick).run(prog, top=True)
+                Interp(get, lambda e: ctl.ev(*e), tick, cfg.get("tz")).run(prog, top=True)
             return f
 
         for p in cfg["progs"]:
